@@ -7,8 +7,8 @@ from checks import callcommon, ctxcommon
 from framework import Case
 
 PROP = "C10"
-GENERATED = ['DtypeTables', 'Core', 'SrcHints', 'HintLoop', 'Wrapper', 'Classes', 'Decorate', 'SrcDecorate', 'SrcExpand', 'ClassDecor', 'Resolve']  # generated files this check's tie depends on
-LEAN_MODULES = ["Properties.C10", "Properties.Core", "Properties.Prov.Hints", "Properties.CoreHints", "Properties.CoreWrap", "Properties.CoreClasses", "Properties.CoreDecorate", "Properties.Prov.Decorate", "Properties.Prov.Expand", "Properties.CoreClassDecor", "Properties.CoreResolve"]
+GENERATED = ['DtypeTables', 'Core', 'SrcHints', 'HintLoop', 'Wrapper', 'Classes', 'Decorate', 'SrcDecorate', 'SrcExpand', 'ClassDecor', 'Resolve', 'SrcSurface']  # generated files this check's tie depends on
+LEAN_MODULES = ["Properties.C10", "Properties.Core", "Properties.Prov.Hints", "Properties.CoreHints", "Properties.CoreWrap", "Properties.CoreClasses", "Properties.CoreDecorate", "Properties.Prov.Decorate", "Properties.Prov.Expand", "Properties.CoreClassDecor", "Properties.CoreResolve", "Properties.Prov.Surface"]
 RULE = (
     "exhaustive None / conforming / violating patterns over signatures with optional hints in parameter, tuple-element (every position), "
     "field and return position (<=3 positions), spelled `T | None`, Optional[T], `None | T`, Optional[Optional[T]]; unions with other "
